@@ -23,6 +23,13 @@ CHECKS["C04"] = ("property-based testing (Hypothesis): Sampler / Backend distrib
     "Generated lossy/lossless/heralded circuits and inputs; each backend's distribution compared pattern by pattern with an exact reference (loss modes traced out), normalisation, non-negativity and photon-number bound asserted, and the two backends compared with each other.",
     "Trusts own permanent and Fock enumeration; tolerance = documented 1e-9 truncation per full state.", "3/C04")
 
+CHECKS["C05"] = ("property-based testing (Hypothesis): differential relations between Simulator/Sampler/Analyzer/QuickSampler plus exact reference distribution from own permanent",
+    "Generated circuits with heralds (photons, in != out modes, nested ancillas), loss, post-selection objects/predicates, expected mappings in any order and both QuickSampler detector modes; every clause of C05 is evaluated against an exact distribution computed independently and against the other objects; qubit-library circuits are a second generator.",
+    "Trusts own permanent/Fock enumeration and own evaluation of post-selection descriptions; truncation tolerance as documented; QuickSampler compared only when the accepted mass exceeds 1e-6.", "3/C05")
+CHECKS["C06"] = ("property-based testing (Hypothesis): Sampler distribution under imperfect Source vs own per-photon six-outcome mixture model; closed forms for g2, HOM visibility, classical limit",
+    "Generated source parameters (boundary-weighted), inputs (bunched, herald photons), lossy/lossless circuits, both backends; distribution compared with an independently written mixture-of-distinguishable-groups model; closed-form metamorphic relations checked separately.",
+    "Trusts own permanent and the documented per-photon coefficients; emission configurations are merged by physical equivalence (partition into distinguishability groups) before thresholding.", "3/C06")
+
 NOT_YET = {}
 
 
